@@ -106,18 +106,35 @@ theorem checked_programs_safe (D : Decls) (n : Nat) (a : AExpr) (τ : STy)
     (∀ w, eval n [] a.erase ≠ .error (.wrong w)) ∧ (∀ v, eval n [] a.erase = .ok v → HasShape D v τ) :=
   soundness_closed D n a.erase τ (infer_sound D [] a τ h)
 
-/-! ### The real checker accepts more than `HasType` (defect D17, found by this check's oracle)
+/-! ### Record literals checked against an expected record type (typecheck.rs:1016-1043)
 
-Full statement wanted: `AcceptsReal D [] e τ → eval n [] e = .ok v → HasShape D v τ` where
-`AcceptsReal` is what check/src/typecheck.rs really accepts. FALSE for the unchanged code:
-`[{ a = 1, b = "x" }, { b = "y", a = 2 }]` is accepted at `Array { a : Int, b : String }` and its
-second element is laid out `("y", 2)` (corpus/C02/d17_record_literal_order.glu). -/
+`AcceptsReal` = `HasType` plus the shortcut by which the real checker gives a record literal its
+EXPECTED type without subsumption. Since /repo commit ebc4408 the shortcut requires the field
+names to agree in order, and everything the modelled checker accepts is safe, unconditionally. -/
 
-/-- D17: a record literal accepted at a permutation of its own field order yields a value that
-    does not have the shape of its type … -/
-theorem accepted_programs_safe_fails :
+/-- the shortcut rule is admissible: whatever `AcceptsReal` accepts is `HasType`-typed -/
+theorem accepts_real_typed (D : Decls) (Γ : Ctx) (e : Expr) (τ : STy) (h : AcceptsReal D Γ e τ) :
+    HasType D Γ e τ := by
+  cases h with
+  | sound h => exact h
+  | literalExpectedOrder hf hl heq => subst heq; exact .record hf hl
+
+/-- **Main statement for the modelled real checker** (true since ebc4408; it was refuted for the old
+    rule, see `accepted_programs_safe_old_rule_fails`): an accepted closed program never goes wrong
+    and its value has the shape of the reported type. -/
+theorem accepted_programs_safe (D : Decls) (n : Nat) (e : Expr) (τ : STy) (h : AcceptsReal D [] e τ) :
+    (∀ w, eval n [] e ≠ .error (.wrong w)) ∧ (∀ v, eval n [] e = .ok v → HasShape D v τ) :=
+  soundness_closed D n e τ (accepts_real_typed D [] e τ h)
+
+/-! Regression theorems about the rule before ebc4408 (defect D17: names compared as a set):
+`[{ a = 1, b = "x" }, { b = "y", a = 2 }]` was accepted at `Array { a : Int, b : String }` with the
+second element laid out `("y", 2)` (corpus/C02/d17_record_literal_order.glu, now rejected). -/
+
+/-- old rule: a record literal accepted at a permutation of its own field order yields a value
+    that does not have the shape of its type … -/
+theorem accepted_programs_safe_old_rule_fails :
     ∃ (D : Decls) (e : Expr) (τ : STy) (v : Val),
-      AcceptsReal D [] e τ ∧ eval 5 [] e = .ok v ∧ ¬ HasShape D v τ := by
+      AcceptsRealOld D [] e τ ∧ eval 5 [] e = .ok v ∧ ¬ HasShape D v τ := by
   refine ⟨fun _ _ => none, .record [.int 1, .str "x"] none [.field 0, .field 1],
     .recd [.str, .int], .data 0 [.int 1, .str "x"], ?_, rfl, ?_⟩
   · exact .literalAnyOrder (σs := [.int, .str]) (τs := [.int, .str])
@@ -127,16 +144,27 @@ theorem accepted_programs_safe_fails :
     | recd hvs => cases hvs with
       | cons h1 _ => cases h1
 
-/-- … and using the value at its static type goes wrong (the model counterpart of the observed
+/-- … and using such a value at its static type went wrong (the model counterpart of the observed
     `GetOffset on 1` / reading a String as an Int): projecting the "Int" field and adding to it. -/
-theorem accepted_programs_go_wrong_witness :
+theorem accepted_programs_old_rule_go_wrong_witness :
     eval 6 [] (.prim "+" (.proj (.record [.str "y", .int 2] none [.field 0, .field 1]) 0) (.int 1))
       = .error (.wrong "prim") := by rfl
 
-/-- Whatever the modelled real checker accepts other than through the defective rule (here: the
-    program is not a record literal checked against a permuted expected type) is safe. -/
-theorem accepted_programs_safe_partial (D : Decls) (n : Nat) (e : Expr) (τ : STy)
-    (h : AcceptsReal D [] e τ) (hno : ∀ fields layout, e ≠ .record fields none layout) :
+/-- the fixed rule does NOT accept the old witness at the permuted type: the only way to accept it
+    would be a `HasType` derivation, and there is none -/
+theorem old_witness_now_rejected (D : Decls) :
+    ¬ AcceptsReal D [] (.record [.int 1, .str "x"] none [.field 0, .field 1]) (.recd [.str, .int]) := by
+  intro h
+  have ht := accepts_real_typed D [] _ _ h
+  have hs := (soundness_closed D 5 _ _ ht).2 (.data 0 [.int 1, .str "x"]) rfl
+  cases hs with
+  | recd hvs => cases hvs with
+    | cons h1 _ => cases h1
+
+/-- old rule, partial statement that did hold: everything accepted other than through the
+    defective rule was safe. -/
+theorem accepted_programs_safe_old_rule_partial (D : Decls) (n : Nat) (e : Expr) (τ : STy)
+    (h : AcceptsRealOld D [] e τ) (hno : ∀ fields layout, e ≠ .record fields none layout) :
     (∀ w, eval n [] e ≠ .error (.wrong w)) ∧ (∀ v, eval n [] e = .ok v → HasShape D v τ) := by
   cases h with
   | sound h => exact soundness_closed D n e τ h
@@ -235,6 +263,12 @@ example : HasType (fun _ _ => none) [] (.app (.lam ["x"] (.prim "+" (.var "x") (
     rfl (.cons .int .nil)
 
 example : eval 10 [] (.app (.lam ["x"] (.prim "+" (.var "x") (.int 1))) [.int 2]) = .ok (.int 3) := by rfl
+
+/-- the record-literal shortcut with the fields in the expected order (the fixed rule) -/
+example : AcceptsReal (fun _ _ => none) [] (.record [.int 1, .str "x"] none [.field 0, .field 1])
+    (.recd [.int, .str]) :=
+  .literalExpectedOrder (σs := [.int, .str]) (τs := [.int, .str])
+    (.cons .int (.cons .str .nil)) (.field rfl (.field rfl .nil)) rfl
 
 /-- an ill-typed program that does go wrong (so "never wrong" is not trivially true of `eval`) -/
 example : eval 10 [] (.app (.int 1) [.int 2]) = .error (.wrong "call") := by rfl
